@@ -16,9 +16,9 @@ pub fn hex(b: &[u8]) -> String {
     s
 }
 
-/// Output encoding: hex up to 2048 bytes, else `#<sha256>:<len>`
+/// Output encoding: hex up to 300000 bytes, else `#<sha256>:<len>`
 pub fn out(b: &[u8]) -> String {
-    if b.len() <= 2048 {
+    if b.len() <= 300000 {
         hex(b)
     } else {
         let d = Sha256::digest(b);
